@@ -226,6 +226,10 @@ class World:
                               episode_length=(cfg["eplen"] or None), initial_cash=1000.0,
                               sampling_span=((2 if len(cfg["events"]) > 1000 else 3)
                                              if (cfg["eplen"] and len(cfg["events"]) % 2 == 0) else None))
+        if cfg["lat"] and len(cfg["events"]) % 2 == 0 and len(cfg["events"]) < 1000:
+            # more data is scheduled on the Transmitter once the environment exists: an event stamped a week after the end of
+            # the grid (it is never delivered, and nothing else changes)
+            tr.add_events([EventX(T(self.grid[-1], tick) + timedelta(days=7), 10 ** 6)])
         self.sink.env = self.env
         self.sinkx.env = self.env
         self.sinkx2.env = self.env
